@@ -7,6 +7,7 @@ import (
 	"encoding/binary"
 	"fmt"
 	"net"
+	"sync"
 	"sync/atomic"
 	"time"
 
@@ -66,6 +67,8 @@ type IPPool struct {
 	gateway   net.IP
 	available []net.IP
 	allocated map[string]net.IP // session ID -> IP
+
+	mu sync.Mutex // receive loop and cleanup loop both use the pool
 }
 
 // NewIPPool creates a new IP pool
@@ -105,6 +108,9 @@ func NewIPPool(network string, gateway string) (*IPPool, error) {
 
 // Allocate allocates an IP for a session
 func (p *IPPool) Allocate(sessionID string) net.IP {
+	p.mu.Lock()
+	defer p.mu.Unlock()
+
 	// A session that already holds an address keeps it
 	if ip, ok := p.allocated[sessionID]; ok {
 		return ip
@@ -120,6 +126,9 @@ func (p *IPPool) Allocate(sessionID string) net.IP {
 
 // Release releases an IP back to the pool
 func (p *IPPool) Release(sessionID string) {
+	p.mu.Lock()
+	defer p.mu.Unlock()
+
 	if ip, ok := p.allocated[sessionID]; ok {
 		delete(p.allocated, sessionID)
 		p.available = append(p.available, ip)
@@ -961,10 +970,17 @@ func (s *Server) cleanupLoop(ctx context.Context) {
 			if timeout == 0 {
 				timeout = 5 * time.Minute
 			}
-			removed := s.sessions.CleanupExpired(timeout)
-			if removed > 0 {
+			removed := s.sessions.RemoveExpired(timeout)
+			for _, session := range removed {
+				// An idle session gives its address back to the pool
+				session.SetState(StateClosed)
+				if s.clientIPPool != nil {
+					s.clientIPPool.Release(session.SessionID)
+				}
+			}
+			if len(removed) > 0 {
 				s.logger.Info("Cleaned up expired PPPoE sessions",
-					zap.Int("count", removed),
+					zap.Int("count", len(removed)),
 				)
 			}
 		}
